@@ -407,3 +407,142 @@ def lower6(ctx) -> List[Ob]:
             else:
                 out.append(bad("LOWER-6", m.qualname, key, where, f"the deletion can remove the entry block {entry!r}: the graph is left without a block that has no predecessor (restructuring asserts in find_head)"))
     return out
+
+
+def _arm_for(ctx, cg, cls_name: str):
+    params = [p.arg for p in cg.params if p.arg != "self"]
+    chains = find_class_chains(cg.node, params[0])
+    if not chains:
+        raise AnalysisError("codegen: no class dispatch")
+    for a in chains[0][1]:
+        if a.test is not None and cls_name in A.unparse(a.test):
+            return a, params[0]
+    return None, params[0]
+
+
+@rule("LOWER-7", 2, "the return value travels through one reserved variable: the name assigned at a return statement is the name the synthetic return block returns")
+def lower7(ctx) -> List[Ob]:
+    out: List[Ob] = []
+    cg = _codegen(ctx)
+    parm, subj = _arm_for(ctx, cg, "PythonASTBlock")
+    rarm, _ = _arm_for(ctx, cg, "SyntheticReturn")
+    if parm is None or rarm is None:
+        raise AnalysisError("codegen: arms for PythonASTBlock / SyntheticReturn not found")
+    written = set()
+    for c in A.walk_no_nested(ast.Module(parm.body, [])):
+        if isinstance(c, ast.Call) and (A.dotted(c.func) or "") == "ast.Assign" and c.args:
+            tg = c.args[0]
+            for n in ast.walk(tg):
+                if isinstance(n, ast.Call) and (A.dotted(n.func) or "") == "ast.Name" and n.args and isinstance(n.args[0], ast.Constant):
+                    # only the assignment that stores a Return's value
+                    stmt_txt = A.unparse(A.enclosing_stmt(c) or c)
+                    if ".value" in stmt_txt or "val" in stmt_txt:
+                        written.add(n.args[0].value)
+    read = set()
+    for c in A.walk_no_nested(ast.Module(rarm.body, [])):
+        if isinstance(c, ast.Call) and (A.dotted(c.func) or "") == "ast.Return" and c.args:
+            for n in ast.walk(c.args[0]):
+                if isinstance(n, ast.Call) and (A.dotted(n.func) or "") == "ast.Name" and n.args and isinstance(n.args[0], ast.Constant):
+                    read.add(n.args[0].value)
+    key = "return variable written"
+    if len(written) == 1:
+        out.append(ok("LOWER-7", cg.qualname, key, ctx.where(cg, parm.node), f"return statements assign {sorted(written)[0]}"))
+    else:
+        out.append(unresolved("LOWER-7", cg.qualname, key, ctx.where(cg, parm.node), f"cannot identify the variable a return statement assigns ({sorted(written)})"))
+        return out
+    key = "return variable read"
+    if read == written:
+        out.append(ok("LOWER-7", cg.qualname, key, ctx.where(cg, rarm.node), f"the synthetic return block returns {sorted(read)[0]}"))
+    elif not read:
+        out.append(bad("LOWER-7", cg.qualname, key, ctx.where(cg, rarm.node), "the synthetic return block does not return the reserved return-value variable"))
+    else:
+        out.append(bad("LOWER-7", cg.qualname, key, ctx.where(cg, rarm.node), f"return statements assign {sorted(written)} but the synthetic return block returns {sorted(read)}: every function returns an unbound / stale variable"))
+    return out
+
+
+@rule("LOWER-8", 3, "the loop flag of a generated while loop: one name per nesting level, set before the loop, tested by the loop, and written by that loop's latch")
+def lower8(ctx) -> List[Ob]:
+    out: List[Ob] = []
+    cg = _codegen(ctx)
+    cfg = ctx.cfg(cg)
+    larm, subj = _arm_for(ctx, cg, "SyntheticExitingLatch")
+    rarm, _ = _arm_for(ctx, cg, "RegionBlock")
+    if larm is None or rarm is None:
+        raise AnalysisError("codegen: arms for RegionBlock / SyntheticExitingLatch not found")
+
+    def fstrings(body):
+        return [(s, A.unparse(s.value)) for s in A.walk_no_nested(ast.Module(body, [])) if isinstance(s, ast.Assign) and isinstance(s.value, ast.JoinedStr)]
+
+    lf, rf = fstrings(larm.body), fstrings(rarm.body)
+    key = "same flag skeleton in loop and latch"
+    if len(lf) == 1 and len(rf) == 1 and lf[0][1] == rf[0][1]:
+        out.append(ok("LOWER-8", cg.qualname, key, ctx.where(cg, rf[0][0]), f"both build {rf[0][1]}"))
+    elif len(lf) == 1 and len(rf) == 1:
+        out.append(bad("LOWER-8", cg.qualname, key, ctx.where(cg, lf[0][0]), f"the loop tests {rf[0][1]} but its latch assigns {lf[0][1]}: the generated while loop never terminates or exits at once"))
+        return out
+    else:
+        out.append(unresolved("LOWER-8", cg.qualname, key, ctx.where(cg), "cannot find the loop flag names"))
+        return out
+    counter = None
+    for n in ast.walk(rf[0][0].value):
+        if isinstance(n, ast.FormattedValue):
+            counter = A.unparse(n.value)
+    # loop arm: counter incremented before the flag name is built and before the body is generated
+    inc = [s for s in A.walk_no_nested(ast.Module(rarm.body, [])) if isinstance(s, ast.AugAssign) and A.unparse(s.target) == counter and isinstance(s.op, ast.Add)]
+    key = "loop arm: level counter pushed before name and body"
+    body_calls = [c for c in A.walk_no_nested(ast.Module(rarm.body, [])) if isinstance(c, ast.Call) and isinstance(c.func, ast.Name) and c.func.id == "codegen_view"]
+    if inc and all(cfg.dominates(cfg.node_of(inc[0]), cfg.node_of(x)) for x in [rf[0][0]] + [b for b in body_calls if any(a is inc[0] or True for a in [0]) and cfg.node_of(b) in cfg.reachable(cfg.node_of(inc[0]))]) and cfg.dominates(cfg.node_of(inc[0]), cfg.node_of(rf[0][0])):
+        out.append(ok("LOWER-8", cg.qualname, key, ctx.where(cg, inc[0]), f"{counter} += 1, then the name, then the body"))
+    else:
+        out.append(bad("LOWER-8", cg.qualname, key, ctx.where(cg, rarm.node), f"the nesting counter {counter} is not advanced before the flag name is built: nested loops share one flag"))
+    # latch arm: the name is built before the counter is popped
+    dec = [s for s in A.walk_no_nested(ast.Module(larm.body, [])) if isinstance(s, ast.AugAssign) and A.unparse(s.target) == counter and isinstance(s.op, ast.Sub)]
+    key = "latch arm: level counter popped after the name"
+    if dec and cfg.dominates(cfg.node_of(lf[0][0]), cfg.node_of(dec[0])) and len(dec) == len(inc) == 1:
+        out.append(ok("LOWER-8", cg.qualname, key, ctx.where(cg, dec[0]), f"name built with the current level, then {counter} -= 1"))
+    else:
+        out.append(bad("LOWER-8", cg.qualname, key, ctx.where(cg, larm.node), f"the latch does not pop the nesting counter {counter} exactly once after using it: a loop that follows, or encloses, gets another loop's flag"))
+    return out
+
+
+@rule("LOWER-9", 3, "a source block is emitted whole and once: all its statements, with the last one replaced by the construct built from it")
+def lower9(ctx) -> List[Ob]:
+    out: List[Ob] = []
+    cg = _codegen(ctx)
+    parm, subj = _arm_for(ctx, cg, "PythonASTBlock")
+    if parm is None:
+        raise AnalysisError("codegen: no PythonASTBlock arm")
+    tree = f"{subj}.tree"
+    for r in [n for n in A.walk_no_nested(ast.Module(parm.body, [])) if isinstance(n, ast.Return) and n.value is not None]:
+        v = r.value
+        key = "return " + A.alpha_key(v)
+        where = ctx.where(cg, r)
+        txt = A.unparse(v)
+        if txt == tree:
+            out.append(ok("LOWER-9", cg.qualname, key, where, "all statements of the block"))
+            continue
+        if isinstance(v, ast.BinOp) and isinstance(v.op, ast.Add) and A.unparse(v.left) == f"{tree}[:-1]" and isinstance(v.right, ast.List) and len(v.right.elts) == 1:
+            # the appended construct must be built from the block's last node
+            el = v.right.elts[0]
+            src_ok = False
+            cfg = ctx.cfg(cg)
+            seen = set()
+            work = [el]
+            while work:
+                e = work.pop()
+                if f"{tree}[-1]" in A.unparse(e):
+                    src_ok = True
+                    break
+                for n in ast.walk(e):
+                    if isinstance(n, ast.Name) and n.id not in seen:
+                        seen.add(n.id)
+                        for d in cfg.reaching_defs(r, n.id):
+                            if d.stmt is not None and isinstance(d.stmt, (ast.Assign, ast.AnnAssign)) and getattr(d.stmt, "value", None) is not None:
+                                work.append(d.stmt.value)
+            if src_ok:
+                out.append(ok("LOWER-9", cg.qualname, key, where, "all statements but the last, plus the construct built from the last"))
+            else:
+                out.append(bad("LOWER-9", cg.qualname, key, where, "the block's last statement is dropped: the construct appended in its place is not built from it"))
+            continue
+        out.append(bad("LOWER-9", cg.qualname, key, where, f"a source block is emitted as {txt[:60]}: not all of its statements exactly once"))
+    return out
